@@ -92,10 +92,17 @@ def fmod (a b : Float) : Float :=
   if a.isNaN || b.isNaN || a.isInf || b == 0 then 0.0 / 0.0
   else if b.isInf then a
   else
-    let q := a / b
-    let t := if q < 0 then q.ceil else q.floor
-    let r := a - t * b
-    if r == 0 && (a < 0 || (a == 0 && 1.0 / a < 0)) then -0.0 else r
+    let m := b.abs
+    /- exact remainder by shift-and-subtract: `t = m·2^k ≤ r < 2t`, so `r - t` is exact -/
+    let rec scale : Nat → Float → Float → Float
+      | 0, t, _ => t
+      | f+1, t, r => if t * 2 ≤ r then scale f (t * 2) r else t
+    let rec go : Nat → Float → Float
+      | 0, r => r
+      | f+1, r => if r < m then r else go f (r - scale 1100 m r)
+    let r := go 2200 a.abs
+    let neg := a < 0 || (a == 0 && 1.0 / a < 0)
+    if neg then -r else r
 
 def arith (op : BinOp) (a b : Float) : Float :=
   match op with
@@ -108,6 +115,7 @@ def modelDiv (a b : Float) : Float :=
   if a.isNaN then a else if b.isNaN then b
   else if b != 0.0 then a / b
   else if a == 0.0 then 0.0 / 0.0
+  else if XalanModel.Generated.C02.divideSignAware then (if (a > 0.0) == !(1.0 / b < 0.0) then 1.0 / 0.0 else -1.0 / 0.0)
   else if a > 0.0 && !(1.0 / b < 0.0) then 1.0 / 0.0
   else -1.0 / 0.0
 
@@ -117,6 +125,7 @@ def modelMod (a b : Float) : Float :=
   let isLong (x : Float) : Bool := !x.isInf && x.abs < 9223372036854775808.0 && x.floor == x
   if a.isNaN then a else if b.isNaN then b
   else if b == 0.0 then 0.0 / 0.0
+  else if XalanModel.Generated.C02.modulusIsFmod then fmod a b
   else if isLong a && isLong b then
     let ia : Int := if a < 0 then -((-a).toUInt64.toNat : Int) else (a.toUInt64.toNat : Int)
     let ib : Int := if b < 0 then -((-b).toUInt64.toNat : Int) else (b.toUInt64.toNat : Int)
